@@ -985,7 +985,45 @@ func (ex *Exec) instrs(st *State, fr *Frame, b *ssa.BasicBlock, i int, k Cont) {
 			return
 		case *ssa.RunDefers:
 			// run deferred calls in reverse, then continue
+			// the value about to be returned is already computed when the results are unnamed (go/ssa
+			// emits "rundefers; return v"): deferred calls may be specified against it ("returning")
+			fr.pending = nil
+			if r, ok := b.Instrs[len(b.Instrs)-1].(*ssa.Return); ok && len(r.Results) >= 1 {
+				// go/ssa keeps the results of a function with defers in result slots: "*slot = v;
+				// rundefers; t = *slot; return t" - the slot's content now is what is being returned
+				pend := func(rv ssa.Value) (Val, bool) {
+					if _, have := fr.vals[rv]; have {
+						return ex.val(st, fr, rv), true
+					}
+					if _, isC := rv.(*ssa.Const); isC {
+						return ex.val(st, fr, rv), true
+					}
+					if u, ok := rv.(*ssa.UnOp); ok && u.Op == token.MUL {
+						if _, have := fr.vals[u.X]; have {
+							return ex.load(st, ex.val(st, fr, u.X)), true
+						}
+					}
+					return Val{}, false
+				}
+				if len(r.Results) == 1 {
+					if pv, ok := pend(r.Results[0]); ok {
+						fr.pending = &pv
+					}
+				} else {
+					pv := Val{Typ: fr.fn.Signature.Results()}
+					all := true
+					for _, rr := range r.Results {
+						e, ok := pend(rr)
+						all = all && ok
+						pv.Elems = append(pv.Elems, e)
+					}
+					if all {
+						fr.pending = &pv
+					}
+				}
+			}
 			ex.runDefers(st, fr, len(fr.defers)-1, func(st2 *State, fr2 *Frame) {
+				fr2.pending = nil
 				ex.instrs(st2, fr2, b, i+1, k)
 			})
 			return
